@@ -223,6 +223,17 @@ pub fn set_real_drops(on: bool) {
     REAL_DROPS.with(|c| c.set(on));
 }
 
+thread_local! {
+    /// Should an unwinding thread also JOIN the threads it started (a destructor that blocks)?
+    /// Not when a second, independent failure can strike in another thread meanwhile: the model
+    /// then fails from that thread and the blocked, half-unwound one is abandoned (domain of known
+    /// finding K7).
+    static JOIN_ON_UNWIND: std::cell::Cell<bool> = std::cell::Cell::new(true);
+}
+pub fn set_join_on_unwind(on: bool) {
+    JOIN_ON_UNWIND.with(|c| c.set(on));
+}
+
 /// A channel message. `report_to`: if the message is dropped without having been received, its
 /// destructor sends `v + 1` on that channel.
 pub struct Msg {
@@ -493,6 +504,45 @@ impl Drop for Ctx {
             // the panic that unwinds is loom's report of a race on that very cell
             for c in self.env.cells.iter() {
                 c.with_mut(|_| ());
+            }
+            // ... and a third one joins the threads this thread has started (a scope guard): a
+            // destructor that may have to BLOCK while the panic unwinds. Only children that
+            // terminate on their own (no blocking operation) are joined, so that the wait ends.
+            let p = self.env.p.clone();
+            for t in 1..p.threads.len() {
+                let nonblocking = p.threads[t].iter().all(|o| {
+                    !matches!(
+                        o.inner(),
+                        Op::Lock { .. }
+                            | Op::RLock { .. }
+                            | Op::WLock { .. }
+                            | Op::TryLock { .. }
+                            | Op::TryRLock { .. }
+                            | Op::TryWLock { .. }
+                            | Op::UnwindLock { .. }
+                            | Op::Recv { .. }
+                            | Op::Join { .. }
+                            | Op::Park
+                            | Op::CvWait { .. }
+                            | Op::CvWaitUntil { .. }
+                            | Op::NWait { .. }
+                            | Op::NWaitUntil { .. }
+                            | Op::Await { .. }
+                            | Op::AwaitY { .. }
+                            | Op::BlockOn { .. }
+                            | Op::BlockOn2 { .. }
+                            | Op::SelfWake
+                            | Op::Spawn { .. }
+                            | Op::Panic { .. }
+                    )
+                });
+                let mine = p.threads[self.tid as usize].iter().any(|o| matches!(o.inner(), Op::Spawn { t: x } if *x as usize == t));
+                if nonblocking && mine && JOIN_ON_UNWIND.with(|c| c.get()) {
+                    let h = self.env.join.borrow_mut()[t].take();
+                    if let Some(h) = h {
+                        let _ = h.join();
+                    }
+                }
             }
             return;
         }
